@@ -100,7 +100,10 @@ def run(tier, seed):
             ck.sample({'s': [hex(ord(ch)) for ch in s], 'escaped': e})
     # selection on a document
     nul_strs = [x for x in ('\x00', 'a\x00', '\x00b', '-\x00', 'a\x00b\x00c', '\x00\x00', '1\x00') if x in esc or not esc.update({x: sv.escape(x)})]
-    for s in rnd.sample([x for x in strs if x in esc], 200 if tier == 'quick' else 3000) + nul_strs:
+    # code points that Unicode normalisation forms / case foldings would rewrite: identifiers are compared code point by code point
+    norm_strs = [x for x in ('cafe\u0301', 'e\u0301', '\u212a', '\u212b', '\u2126', '\u1fef', '\u037e', '\uf900', 'A\u030a', '\u1e9b\u0323', '\ufb01',
+                             '\u00e9', 'x\u00c5', '\u0130', '\u017f', '\u2160', '\uff21') if x in esc or not esc.update({x: sv.escape(x)})]
+    for s in rnd.sample([x for x in strs if x in esc], 200 if tier == 'quick' else 3000) + nul_strs + norm_strs:
         exp = s.replace('\x00', '�')
         soup.body.clear()
         near = [exp, exp + 'x', 'x' + exp, exp[:-1] if len(exp) > 1 else 'q', exp.swapcase() if exp.swapcase() != exp else 'zz']
@@ -108,6 +111,13 @@ def run(tier, seed):
             near += [s, s.replace('\x00', '', 1) or 'q2']           # the raw NUL is another character than U+FFFD in a document value
         if '�' in exp:
             near.append(exp.replace('�', '\x00', 1))
+        import unicodedata
+        for form in ('NFC', 'NFD', 'NFKC', 'NFKD'):
+            nv = unicodedata.normalize(form, exp)
+            if nv != exp and nv:
+                near.append(nv)
+        if exp.casefold() != exp and exp.casefold():
+            near.append(exp.casefold())
         near = list(dict.fromkeys(near))
         for v in near:
             t = soup.new_tag('p')
